@@ -534,6 +534,7 @@ def translate_function(f, tid=None, seq=False, opts=None):
                 skip_attrs(tk)
                 rty = M.parse_type(tk)
                 if isinstance(rty, PtrT) and isinstance(rty.to, FuncT): rty = rty.to.ret  # full fn type given
+                if isinstance(rty, FuncT): rty = rty.ret
                 tk.ws()
                 if tk.eat('asm'):
                     mm = re.match(r'\s*((?:sideeffect|alignstack|inteldialect|unwind)\s+)*"((?:[^"\\]|\\.)*)"\s*,\s*"([^"]*)"', tk.rest()); tk.i += mm.end()
@@ -741,7 +742,8 @@ def main():
     # prototypes
     def proto(f, name=None):
         ps = ', '.join(p[0].c() for p in f.params)
-        if f.va: ps = (ps + ', ...') if ps else '...'
+        if f.va: ps = (ps + ', ...') if ps else ''
+        if f.va and not f.params: return '%s %s()' % (f.ret.c(), cfname(name or f.name))
         return '%s %s(%s)' % (f.ret.c(), cfname(name or f.name), ps or 'void')
     for n, d in M.decls.items():
         if n.startswith('llvm.') or n in ('__assert_fail', 'verif_park', 'verif_stop', 'verif_yield') or n in SPECIAL or n.startswith('nondet_'): continue
